@@ -14,13 +14,27 @@ func verifC18_stream() {
 	vInstallRand()
 	ts := vNewTransport(nil)
 	ts.endMode = vEndBlock
-	snd := vNewConn(ts, client, nil, 16, 32)
-	typ := MessageType(1 + vChoose("typ", 2))
+	bwSize := 32
+	if vParam("big", 0) == 1 {
+		bwSize = 4096
+	}
+	snd := vNewConn(ts, client, nil, 16, bwSize)
+	big := vParam("big", 0) == 1
+	typ := MessageBinary
+	nw := 1
+	if !big {
+		typ = MessageType(1 + vChoose("typ", 2))
+		nw = 1 + vChoose("writes", vParam("maxWrites", 3))
+	}
 	ncs := NetConn(vBG, snd, typ)
 	var all []byte
-	nw := 1 + vChoose("writes", vParam("maxWrites", 3))
 	for i := 0; i < nw; i++ {
-		p := vBytes("w", vChoose("wlen", vParam("maxLen", 3)+1))
+		n := vChoose("wlen", vParam("maxLen", 3)+1)
+		if big {
+			// sizes around the write buffer and the 16-bit length boundary
+			n = []int{4095, 4096, 4097, 65535, 65536, 65537}[vChoose("bigLen", 6)]
+		}
+		p := vBytes("w", n)
 		pc := append([]byte{}, p...)
 		n, err := ncs.Write(p)
 		vAssert(vAnd(err == nil, n == len(p)), "C18.stream.write-result")
@@ -31,10 +45,16 @@ func verifC18_stream() {
 		}
 	}
 	tr := vNewTransport(ts.out)
-	tr.step = vChoose("step", 2)
-	rcv := vNewConn(tr, !client, nil, 16, 32)
+	bufSize := 0
+	if big {
+		tr.step = 1500 // segment-sized transport reads
+		bufSize = []int{1000, 70000}[vChoose("bigBuf", 2)]
+	} else {
+		tr.step = vChoose("step", 2)
+		bufSize = 1 + vChoose("buf", 3)
+	}
+	rcv := vNewConn(tr, !client, nil, bwSize, 32)
 	ncr := NetConn(vBG, rcv, typ)
-	bufSize := 1 + vChoose("buf", 3)
 	var got []byte
 	p := make([]byte, bufSize)
 	for len(got) < len(all) {
@@ -190,7 +210,7 @@ func verifC18_deadline() {
 		}
 		took := vGhostElapsed() - start
 		vReach("C18.deadline.past-during-active")
-		vAssert(vAnd(err != nil, took < time.Second), "C18.deadline.past-deadline-interrupts-active-call")
+		vAssert(vAnd(err != nil, took < time.Second+vSlack()), "C18.deadline.past-deadline-interrupts-active-call")
 		vGhostSettle()
 		vAssert(vNot(vIsOpen(c)), "C18.deadline.active-closes")
 	case 2:
@@ -207,7 +227,7 @@ func verifC18_deadline() {
 		took := vGhostElapsed() - start
 		vReach("C18.deadline.active-expired")
 		vAssert(err != nil, "C18.deadline.active-call-fails")
-		vAssert(vAnd(took >= time.Second, took < 2*time.Second), "C18.deadline.active-call-prompt")
+		vAssert(vAnd(took >= time.Second-50*time.Millisecond, took < 2*time.Second+vSlack()), "C18.deadline.active-call-prompt")
 		vGhostSettle()
 		vAssert(vNot(vIsOpen(c)), "C18.deadline.active-closes")
 	}
